@@ -196,7 +196,7 @@ def blocks_of(events, hists):
     return blocks
 
 
-def validate(ctx, blocks, hists, strict=False, tagp="tr", max_rounds=12, report=None):
+def validate(ctx, blocks, hists, strict=False, tagp="tr", max_rounds=4, report=None):
     """TLC decides every event of every history (one run per queueBuffer capacity, a constant of the spec).
     A rejected history is reported and removed, the rest is validated again.  Returns summed stats."""
     total = dict(recs=0, nonempty=0, readahead_lost=0, tail_lost=0, mem_lost=0, redelivered=0)
